@@ -43,6 +43,9 @@ def identities(tier):
                 items += [(i, txt(i, n)) for i, n in zip((3, 4, 5, 6), rr)]
                 items += [(i, txt(i, n)) for i, n in zip((0x80, 0x81, 0xFF), pp)]
                 yield 'x%d.%d.%d' % (bi, ri, pi), items
+    # values that consist of blanks only are values like any other (an empty value is what 'not configured' looks like)
+    yield 'blank.1', [(0, 'v'), (1, ' '), (2, 'r'), (3, '\t'), (5, '   '), (0x80, '  '), (0x81, 'x')]
+    yield 'blank.2', [(0, ' '), (1, 'p'), (2, ' ')]
     # objects too large for any single PDU: only size bound and termination are demanded
     for n in (245, 246):
         yield 'big0.%d' % n, [(0, txt(0, n)), (1, 'p'), (2, 'r')]
